@@ -224,10 +224,13 @@ def oracle(ctx):
     from dateutil import rrule as R
     s = R.rruleset(cache=True)
     s.rrule(rrlib.daily(13, False))
-    it = iter(s); next(it)
-    s.rdate(rrlib.to_dt(20 * 86400))
-    list(it)
-    got = len(list(s))
+    try:
+        it = iter(s); next(it)
+        s.rdate(rrlib.to_dt(20 * 86400))
+        list(it)
+        got = len(list(s))
+    except Exception as ex:
+        got = "err " + type(ex).__name__
     ctx.case(("witness-stale",), nontrivial=True)
     if got != 14:
         ctx.violation("witness D-C10-stale: after a stale iterator finished, list(set) has %d items, expected 14" % got,
